@@ -5,6 +5,7 @@ import (
 	"github.com/bokysan/socketace/v2/internal/util/enc"
 	"github.com/pkg/errors"
 	"io"
+	"strings"
 )
 
 var CmdError = Command{
@@ -48,6 +49,11 @@ func (vr *ErrorResponse) Decode(e enc.Encoder, response []byte) error {
 	}
 	data := bytes.NewBuffer(val)
 	str, err := data.ReadString(0)
+	if err == nil {
+		// The text ends at a NUL character: what was read is the error text (an answer must
+		// never decode to "an error response without an error")
+		str, err = strings.TrimRight(str, "\x00"), io.EOF
+	}
 	if err != io.EOF {
 		return errors.WithStack(err)
 	}
